@@ -7,7 +7,7 @@ from oracles import evoscript
 ID = "C13"
 HALF = Fraction(1, 200)
 BOUNDS = {
-    "quick": "evo_aspirate / evo_dispense from an arbitrary valid state of a plate 4x2 or a trough with 4 virtual rows x 2 columns: n<=2 wells chosen from "
+    "quick": "evo_aspirate / evo_dispense from an arbitrary valid state of a plate 4x2 or a trough with 4 virtual rows x 2 columns: n<=2 wells (n=3 on the plate with per-tip volumes and tips 1,2,3) chosen from "
              "{A01,B01,C01,A02} in any order with repeats, n tips each an unbounded symbolic int, volumes scalar or per tip (symbolic), grid / site / arm "
              "unbounded symbolic ints; evo_wash with all thirteen parameters symbolic (ints unbounded, volumes real) and tips of length 1..2",
     "thorough": "n<=3 wells / tips, Tip members mixed with ints, plate 8x2",
@@ -24,6 +24,8 @@ def shards(tier):
             for n in range(1, N + 1):
                 for volmode in ("scalar", "list"):
                     out.append(dict(part="cmd", cmd=cmd, kind=kind, n=n, volmode=volmode))
+        if tier == "quick":
+            out.append(dict(part="cmd", cmd=cmd, kind="plate", n=3, volmode="list", tips_fixed=True))
     for n in (1, 2):
         out.append(dict(part="wash", n=n))
     out.append(dict(part="pos", cmd="evo_aspirate"))
@@ -67,7 +69,7 @@ def scenario(ctx, p):
         return wl
     n = p["n"]
     wells = [ctx.choose(f"w{i}", ["A01", "B01", "C01", "A02"]) for i in range(n)]
-    tips = [ctx.int(f"t{i}") for i in range(n)]
+    tips = list(range(1, n + 1)) if p.get("tips_fixed") else [ctx.int(f"t{i}") for i in range(n)]
     if p["volmode"] == "scalar":
         x = ctx.real("x0", 0, common.BIG)
         vols, per = x, [x] * n
